@@ -96,6 +96,8 @@ CONC_MC = {'module': 'MC_Conc', 'what': 'Conc: 3 goroutines x 2 calls x 3 argume
 CONC_MC_NEG = {'module': 'MC_Conc', 'cfg': 'MC_Conc_shared', 'expect_violation': 'PerGoroutineSequential',
                'what': 'negative control: with package-level working storage TLC finds a result computed from another goroutine\'s argument'}
 
+CONC_PROOF = vf.tlaps_leg('ConcProof', 'Conc with private working storage, ANY number of goroutines, arguments and calls: every goroutine\'s own history is sequential (inductive invariant, TLAPS)')
+
 def CONC(name):
     """The schedule dimension: the driver's shards as goroutines of one process (default configuration).
     Calls of a value library must not disturb one another, so every goroutine's own trace has to be a
@@ -268,12 +270,13 @@ PLANS = {
         'assumptions': COMMON_ASSUMPTIONS + ['the abstract JSON document and well-formedness of an input are derived by the harness with encoding/json (json.Valid, Decoder tokens), as the property prescribes'],
     },
     'C16': {
-        'level_text': 'A Go-slice model (heap, in-place append vs reallocation) shows the frame condition for append-only writers and a negative control breaking it; the real formatters are judged on prefixes from every byte value and from their own output alphabet, spare capacity 0..64, every flag subset, with the nil-buffer output logged in the same event.',
+        'level_text': 'A Go-slice model (heap, in-place append vs reallocation) shows the frame condition for append-only writers and a negative control breaking it; the real formatters are judged on prefixes from every byte value and from their own output alphabet, spare capacity 0..64, every flag subset, with the nil-buffer output logged in the same event; the same driver also runs as 8 goroutines of one process (Conc.tla: TLC for 3 goroutines incl. negative control, TLAPS for any number).',
         'mc': [{'module': 'MC_C16', 'what': 'Go slice model: an append-only writer satisfies the frame condition for every prefix/spare capacity/output (<= 3 each); a whole-buffer post-processing writer (negative control) breaks it'}, CONC_MC, CONC_MC_NEG],
         'drivers': [{'name': 'c16', 'shards': 8}, CONC('c16')],
+        'legs': [CONC_PROOF],
         'codes': ['C16.'],
         'rule': 'fmt.append: for each of the 5 DefaultFormatter functions, prefixes drawn from every byte value (alone and around a formatter letter), prefixes made of the symbols the formatter emits, '
-                'spare capacity 0..64, every flag subset, boundary values; the bytes on a nil buffer are logged in the same event; plus ID.URN in uu.fmt events of C05',
+                'spare capacity 0..64, every flag subset, boundary values; the bytes on a nil buffer are logged in the same event; plus ID.URN in uu.fmt events (also emitted by this driver)',
         'assumptions': COMMON_ASSUMPTIONS,
     },
     'C17': {
